@@ -29,7 +29,8 @@ def check(pid, engine, category, text, note, technique=TECH, design=None):
 
 check("C01", "rocq-core", "proof",
       "Theorems in coq/core/Properties/C01.v over the cluster model Cluster.v (N nodes driven only through the actor handlers), for every "
-      "history H of distinct-stamp operations within one forgiveness period and every trace of well-formed events (client operation with any set "
+      "history H of operations within one forgiveness period in which two operations on the same id never share a stamp (a bulk operation "
+      "stamps all its ids alike) and every trace of well-formed events (client operation with any set "
       "of acknowledging replicas = lost/delivered direct messages, batches of earlier operations delivered to any node any number of times in any "
       "order, complete exchanges, removal half and fetch+modification half of an exchange as separate events in any interleaving, purge-task "
       "runs and restarts of a node on its own store anywhere): every event "
@@ -234,7 +235,7 @@ def main():
             "enable": "the harness workspaces (/verif/harness, /verif/harness-sim) depend on the /repo crates with features=[\"verif-hooks\"]; "
                       "no member of /repo's own workspace enables the feature",
             "baseline_off_cmd": "cd /repo && cargo nextest run --workspace --no-fail-fast --test-threads 8 --offline || cargo test --workspace --no-fail-fast --offline",
-            "source_commits": ["3d14cf9", "445d25e", "d0bd1e4", "a802df6", "a7b3111"],
+            "source_commits": ["3d14cf9", "445d25e", "d0bd1e4", "a802df6", "a7b3111", "265652d"],
             "add_only": True,
         },
         "engines": [],
